@@ -62,7 +62,7 @@ Proof.
   induction fuel as [|f IH]; intros w l i acc Hf; [lia|].
   cbn [av1p_body]. destruct l as [|x l']; [discriminate|].
   set (l := x :: l') in *. assert (Hne : l <> []) by (unfold l; discriminate).
-  destruct (u8 i =? w); [discriminate|].
+  destruct (negb (w =? 0) && (i =? w)); [discriminate|].
   destruct (read_leb128 l) as [[len n]|] eqn:E; [|discriminate].
   apply read_leb128_bounds in E.
   assert (Hl1 : (length (drop n l) < length l)%nat) by (apply drop_length_lt; [lia|exact Hne]).
